@@ -28,7 +28,8 @@ META = {
         ' Round 8: gen_flags_chunk() dominates every return of its caller; the pp_twprge_pm wildcard also deletes warning wording (known finding).'
         ' Round 9: keyword pre-test tables are implied by the warning patterns (members enumerated).'
         " Round 10: `flags.append(pair[0]); flag_lines.append(pair)` is a pair by construction (shape read off the helper's returns)."
-        ' Round 11: a `flags` property derived from `flag_lines` pairs by construction.'),
+        ' Round 11: a `flags` property derived from `flag_lines` pairs by construction.'
+        " Round 12: the parser's own staging lists may carry a common prefix; the unused-text step may be a method."),
     'families': ['PAIR', 'TBL', 'ORDER', 'RX-LANG', 'FORWARD', 'DEADPARAM', 'SIB-DEFAULTS'],
 }
 
@@ -154,6 +155,12 @@ def pair_sites(ctx, funcs, rule='PAIR'):
                 ok = (isinstance(a, ast.Attribute) and isinstance(b, ast.Attribute)
                       and norm(a.value) == norm(b.value)
                       and a.attr in LINE_OF and LINE_OF[a.attr] == b.attr)
+                if not ok and isinstance(a, ast.Attribute) and isinstance(b, ast.Attribute) and norm(a.value) == norm(b.value):
+                    # the same pair under a common prefix (`self.staged_w_flags` / `self.staged_w_flag_lines`)
+                    for fa, lb in LINE_OF.items():
+                        if a.attr.endswith(fa) and b.attr.endswith(lb) and a.attr[:-len(fa)] == b.attr[:-len(lb)] \
+                                and not a.attr[:-len(fa)].rstrip('_').endswith(('w', 'e')):
+                            ok = True
                 # extend(flags) + extend((flag, ctx) for flag in flags): lines derived from the very flags
                 derived = isinstance(a, ast.Name) and isinstance(b, (ast.GeneratorExp, ast.ListComp)) \
                     and len(b.generators) == 1 and norm(b.generators[0].iter) == a.id and not b.generators[0].ifs \
@@ -266,16 +273,23 @@ def _staging_tables(ctx):
     safe = ctx.repo.func('ChunkParser.parse_safe')
     chunk = ctx.repo.func('ChunkParser.parse_chunk')
     handed = set()
+    handed_parent = set()
     for c in walk_local(safe.node):
         if isinstance(c, ast.Call) and isinstance(c.func, ast.Attribute) and c.func.attr == 'extend' \
                 and isinstance(c.func.value, ast.Attribute) and norm(c.func.value.value) == 'parent' \
                 and len(c.args) == 1 and isinstance(c.args[0], ast.Attribute) \
                 and norm(c.args[0].value) == 'self':
-            ctx.check(c.func.value.attr == c.args[0].attr, 'TBL',
-                      f"parse_safe: parent.{c.func.value.attr}.extend(self.{c.args[0].attr})",
+            pa, ca = c.func.value.attr, c.args[0].attr
+            # the parser's own list may carry a prefix (`self.staged_w_flags` -> parent.w_flags); what must not
+            # happen is a hand-off into a DIFFERENT list
+            same = ca == pa or (ca.endswith('_' + pa) and not any(
+                ca.endswith('_' + other) and len(other) > len(pa) for other in ('w_flag_lines', 'e_flag_lines')))
+            ctx.check(same, 'TBL',
+                      f"parse_safe: parent.{pa}.extend(self.{ca})",
                       detail_bad="hand-off crosses two different attributes",
-                      key=f"TBL|parse_safe|{c.func.value.attr}")
-            handed.add(c.args[0].attr)
+                      key=f"TBL|parse_safe|{pa}")
+            handed.add(ca)
+            handed_parent.add(pa)
     ctx.floor('parse_safe hand-offs', len(handed), 4)
     env = ctx.fold.func_env(chunk)
     repl = env.get('replacement_attributes')
@@ -287,8 +301,8 @@ def _staging_tables(ctx):
               f"replacement_attributes = {list(repl)} but parse_safe hands off {sorted(handed)}",
               key="TBL|ChunkParser|replacement_attributes")
     need = {'w_flags', 'w_flag_lines', 'e_flags', 'e_flag_lines'}
-    ctx.check(need <= handed, 'TBL', 'parse_safe hands all four flag lists to the parent',
-              detail_bad=f"missing {sorted(need - handed)}", key="TBL|parse_safe|four")
+    ctx.check(need <= handed_parent, 'TBL', 'parse_safe hands all four flag lists to the parent',
+              detail_bad=f"missing {sorted(need - handed_parent)}", key="TBL|parse_safe|four")
     stored = {n.attr for n in ast.walk(init.node) if isinstance(n, ast.Attribute)
               and isinstance(n.ctx, ast.Store) and norm(n.value) == 'self'}
     ctx.shape(handed <= stored, 'TBL', 'every handed-off list is initialised in ChunkParser.__init__')
@@ -346,6 +360,13 @@ def _hand_down(ctx):
         writes = [st for st in steps if any(norm(x) in ('self.e_flags', 'self.e_flag_lines') for x in ast.walk(st))]
         if reads and writes:
             calls['examine_unused'] = writes[-1]
+        else:
+            # ... or a method of the parser doing it (`self._flag_unused_components()`)
+            for nm_, st in list(calls.items()):
+                node_ = flow.RESOLVER(dotted(st.value.func) or '', st.value, p.node) if flow.RESOLVER else None
+                if node_ is not None and any(isinstance(x, ast.Attribute) and x.attr == 'unused_components' for x in ast.walk(node_)) \
+                        and any('unused_desc' in norm(x) for x in ast.walk(node_) if isinstance(x, (ast.JoinedStr, ast.Constant))):
+                    calls['examine_unused'] = st
     for need in ('construct_tracts', 'examine_unused', 'check_sec_within_tracts',
                  'check_error_tracts', 'hand_down_flags'):
         if need not in calls:
